@@ -39,10 +39,10 @@ func (c *C20Case) Display() any {
 
 func init() {
 	ev.Register(&ev.Prop{
-		ID:    "C20",
-		Rule:  "typed generator scripts: clean, warning-only and (after type-breaking or textual edits) erroneous; succeeding and failing at run time; balances beyond 2^64; metadata; overdraft flag on/off; the numscript binary is built from the working tree; oracle: `check FILE` exits non-zero exactly when the library counts >= 1 error-severity diagnostic and prints one `FILE:L:C - severity` header plus message per library diagnostic (0- or 1-based positions accepted, consistently); `run --output-format json` through --raw, --stdin, script file + -v/-b/-m files, and --stdin combined with a -v file gives identical stdout and status on all channels; on success status 0 and stdout decodes (arbitrary-precision numbers) to exactly the library's postings, transaction metadata (as the values' text) and account metadata; on a library error status != 0 and stderr contains the error's message; non-trivial = >= 1 diagnostic for check, and >= 1 posting or an error for run",
-		New:   func() any { return &C20Case{} },
-		Check: checkC20,
+		ID:          "C20",
+		Rule:        "typed generator scripts: clean, warning-only and (after type-breaking or textual edits) erroneous; succeeding and failing at run time; balances beyond 2^64; metadata; overdraft flag on/off; the numscript binary is built from the working tree; oracle: `check FILE` exits non-zero exactly when the library counts >= 1 error-severity diagnostic and prints one `FILE:L:C - severity` header plus message per library diagnostic (0- or 1-based positions accepted, consistently); `run --output-format json` through --raw, --stdin, script file + -v/-b/-m files, and --stdin combined with a -v file gives identical stdout and status on all channels; on success status 0 and stdout decodes (arbitrary-precision numbers) to exactly the library's postings, transaction metadata (as the values' text) and account metadata; on a library error status != 0 and stderr contains the error's message; non-trivial = >= 1 diagnostic for check, and >= 1 posting or an error for run",
+		New:         func() any { return &C20Case{} },
+		Check:       checkC20,
 		Assumptions: []string{"scripts on which the library itself panics are excluded (C14/C18/C12 own them)"},
 	})
 	Generators["C20"] = func(t *rapid.T, tier string) any {
@@ -70,6 +70,16 @@ func init() {
 			p := gen.Print(ec.Script.Clone(), gen.Canonical)
 			c.Text, c.Note = mutateText(t, p.Text, p.Tokens)
 			c.Note = "text:" + c.Note
+		case 4: // values whose text needs escaping in JSON (assets are not validated when they come from variables)
+			odd := gen.Pick(t, "odd", []string{"US\"D", "US\\u0041D", "A\\B", "line\nfeed", "tab\tbed", "é/2"})
+			ec.Script.Vars = append(ec.Script.Vars, gen.VarDecl{Type: "monetary", Name: "oddm"}, gen.VarDecl{Type: "asset", Name: "odda"})
+			ec.Vars["oddm"] = odd + " 10"
+			ec.Vars["odda"] = odd
+			ec.Script.Stmts = append(ec.Script.Stmts,
+				&gen.Stmt{Kind: gen.StCall, Call: &gen.Call{Fn: "set_tx_meta", Args: []*gen.Expr{gen.Str("oddm"), gen.Var("oddm")}}},
+				&gen.Stmt{Kind: gen.StCall, Call: &gen.Call{Fn: "set_tx_meta", Args: []*gen.Expr{gen.Str("odda"), gen.Var("odda")}}},
+				&gen.Stmt{Kind: gen.StSend, Sent: gen.Var("oddm"), Src: &gen.Src{Kind: gen.SAcct, Addr: gen.Acct("world")}, Dst: &gen.Dst{Kind: gen.DAcct, Addr: gen.Acct("d")}})
+			c.Note = "odd-asset-text"
 		case 3: // multi-line layout (positions on several lines)
 			c.Text = gen.Print(ec.Script.Clone(), &gen.ListLayout{Seps: []string{" ", "\n", " ", "\n  ", " "}}).Text
 			c.Note = "multi-line"
